@@ -27,7 +27,8 @@ Notation "'let*' x := p 'in' k" := (pbind p (fun x => k))
 (* stream.seek(pos); value = struct.parse_stream(stream); stream.tell() *)
 Definition run_at {A} (p : parser A) (stream : list Z) (pos : Z) : res (A * Z) :=
   if pos <? 0 then Err (EPy "ValueError")                 (* BytesIO.seek(negative) *)
-  else if 2 ^ 63 <=? pos then Err (EPy "OverflowError")    (* seek beyond ssize_t *)
+  else if 2 ^ 63 <=? pos then Err EParse     (* seek beyond ssize_t: OverflowError, which
+                                                struct_parse reports as ELFParseError *)
   else
     (* seeking past the end is allowed; nothing can be read there *)
     let rest := if zlen stream <? pos then [] else skipn (Z.to_nat pos) stream in
